@@ -251,6 +251,11 @@ RecProg(n, kinds, refs) ==
 RecGraphs(n) ==
   UNION {{RecProg(n, kinds, refs) : refs \in {r \in [1..n -> AscSeqs(n)] : \A i \in 1..n : ArityOK(kinds[i], r[i])}}
          : kinds \in [1..n -> RecKinds]}
+\* the slice of RecGraphs(n) whose first declaration has kind k1 (TLC enumerates initial states on one thread: the
+\* driver runs the slices side by side)
+RecGraphsFirst(n, k1) ==
+  UNION {{RecProg(n, kinds, refs) : refs \in {r \in [1..n -> AscSeqs(n)] : \A i \in 1..n : ArityOK(kinds[i], r[i])}}
+         : kinds \in {ks \in [1..n -> RecKinds] : ks[1] = k1}}
 
 \* ---- RecInst: instantiations of recursive schemas ------------------------------------------------
 RNode == Rec("r", Obj(<<Prop("v", Var("x")), Prop("n", Arr(Var("r")))>>))
